@@ -108,7 +108,19 @@ fn gen_collist(g: &mut G<'_>, allow_zero: bool) -> Vec<ColGen> {
         3 => *g.pick(&[249usize, 250, 251, 252, 253, 255, 256, 257, 300]),
         _ => *g.pick(&[600usize, 1000, 1023]),
     };
-    (0..n).map(|_| gen_colgen(g, n > 20)).collect()
+    let mut v: Vec<ColGen> = (0..n).map(|_| gen_colgen(g, n > 20)).collect();
+    // descriptors that repeat themselves: a copy of an earlier column, the same name under another
+    // type, a column named like its table
+    if n >= 2 && g.chance(1, 8) {
+        let j = g.usize_in(1, n - 1);
+        let i = g.usize_in(0, j - 1);
+        match g.below(3) {
+            0 => v[j] = v[i].clone(),
+            1 => v[j].name = v[i].name.clone(),
+            _ => v[j].table = v[j].name.clone(),
+        }
+    }
+    v
 }
 
 fn spec(c: &ColGen) -> ColSpec {
